@@ -27,6 +27,8 @@ inductive Obs where
   | result (p idx : Nat) (e : Err)
   | quit
   | final (counts : List (Nat × Nat))
+  | hardPassed (b : Nat)                      -- the hard deadline the harness scripted for batch b has passed
+  | resultDone                                -- the dispatcher has finished processing the last reported result
 deriving Repr
 
 structure OSt where
@@ -38,6 +40,8 @@ structure OSt where
   queued    : List Req := []
   lastOrder : List (Nat × Nat × Bool) := []
   quit      : Bool := false
+  hardDue   : List Nat := []          -- batches whose hard deadline has passed
+  lastRes   : Option Nat := none      -- batch of the job whose result was reported last
 deriving Repr
 
 def reqLt (a b : Req) : Bool := a.1 < b.1 || (a.1 == b.1 && a.2 < b.2)
@@ -98,12 +102,23 @@ def obsStep (o : OSt) : Obs → OSt × List Fail
     | none => (o, [("result-unknown", s!"worker {p} reported without holding a job")])
     | some (_, i, r) =>
       let f : List Fail := if i == idx then [] else [("result-unknown", s!"worker {p} reported job {idx}, held {i}")]
-      let o1 := { o with held := o.held.filter (fun x => !(x.1 == p)) }
+      let o1 := { o with held := o.held.filter (fun x => !(x.1 == p)), lastRes := some r.1 }
       match e with
       | .ok => ({ o1 with okReq := r :: o1.okReq }, f)
       | .canceled => (o1, f)
       | _ => ({ o1 with queued := o1.queued ++ [r] }, f)
   | .quit => ({ o with quit := true }, [])
+  | .hardPassed b => ({ o with hardDue := b :: o.hardDue }, [])
+  | .resultDone =>
+    -- "otherwise a single error (… hard timeout …)": the hard deadline is examined whenever a result of the
+    -- batch is processed, whatever the result was
+    match o.lastRes with
+    | none => (o, [])
+    | some b =>
+      let f : List Fail := if o.hardDue.contains b && !hasVerdict o b then
+        [("hard-timeout-ignored", s!"a result for batch {b} was processed after its hard deadline had passed, yet the batch has no verdict")]
+        else []
+      ({ o with lastRes := none }, f)
   | .final counts =>
     let f := o.subs.filterMap (fun (b, _) =>
       let c := ((counts.find? (fun x => x.1 == b)).map (·.2)).getD 0
@@ -132,20 +147,24 @@ of every later batch, submitted while every peer answers promptly; whether
 `Stop` returned; how many verdicts each result channel delivered in total. -/
 
 inductive RObs where
-  | batch (i : Nat) (verdict : Option Verdict) (fin n : Nat)   -- `none` = no verdict before the deadline
+  | batch (i : Nat) (kind : String) (verdict : Option Verdict) (fin n : Nat)   -- `none` = no verdict before the deadline
   | stop (returned : Bool)
+  | peerNotTaken
   | final (counts : List (Nat × Nat))
 deriving Repr
 
 def realStep : RObs → List Fail
-  | .batch i none _ _ =>
+  | .batch i kind none _ _ =>
     if i ≥ 2 then [("later-batch-starved", s!"batch {i}, submitted after an earlier batch had ended and with every peer answering, got no verdict before its deadline")]
+    else if kind == "failonly" || kind == "hard" then
+      [("hard-timeout-ignored", s!"batch {i} ({kind}) got no verdict although results kept arriving after its hard deadline")]
     else [("batch-never-ended", s!"batch {i} got no verdict although its timeout / cancellation had passed")]
-  | .batch i (some v) fin n =>
+  | .batch i _ (some v) fin n =>
     if v == .res .ok && fin < n then
       [("nil-without-all-ok", s!"batch {i} reported success with {fin} of {n} requests answered")] else []
   | .stop false => [("shutdown-blocked", "Stop did not return")]
   | .stop true => []
+  | .peerNotTaken => [("hang", "the dispatcher did not take a newly connected peer")]
   | .final counts => counts.filterMap (fun (b, c) =>
       if c ≥ 2 then some ("double-verdict", s!"batch {b} received {c} verdicts")
       else if c == 0 then some ("missing-verdict", s!"batch {b} never received a verdict although the dispatcher was stopped")
